@@ -71,6 +71,11 @@ def systematic(tier):
     return cases
 
 
+# hooks of the entering phase, which run before the new state is in place (a hook that raises once the state has been
+# entered is the subject of C03, not of this check: C01 assumes hooks that do not fail)
+DIVERT_HOOKS = ['on_run', 'on_wait', 'on_finish', 'on_kill', 'on_entering']
+
+
 def random_case(rng, tier):
     kinds = KINDS
     if rng.random() < 0.2:
@@ -84,7 +89,13 @@ def random_case(rng, tier):
     for action in schedule:
         if action['act'] == 'complete':
             action.update(fut=rng.randrange(max(program.get('n_futures', 1), 1)), how=rng.choice(['value', 'value', 'exc']), v='x')
-    return {'program': program, 'schedule': schedule, 'opts': {'cleanup_raises': True} if rng.random() < 0.25 else {}}
+    opts = {'cleanup_raises': True} if rng.random() < 0.25 else {}
+    if program.get('kind') != 'workchain' and rng.random() < 0.2:
+        # a hook refuses the state that is being entered and names another one (StateEntryFailed, as plumpy's own on_finish
+        # does): wherever it sends the process, only edges of the graph may be taken
+        opts['divert'] = {'site': 'hook:' + rng.choice(DIVERT_HOOKS), 'count': rng.choice([0, 0, 1, 2]),
+                          'to': rng.choice(['finished', 'killed', 'excepted', 'waiting', 'running', 'created'])}
+    return {'program': program, 'schedule': schedule, 'opts': opts}
 
 
 def shrink(case):
